@@ -29,10 +29,10 @@ Lemma be4_recompose s : (s < 2 ^ 32)%N ->
   ((s / 16777216) mod 256 * 16777216 + (s / 65536) mod 256 * 65536 + (s / 256) mod 256 * 256 + s mod 256 = s)%N.
 Proof. intros H. change (2 ^ 32)%N with 4294967296%N in H. lia. Qed.
 
-(* SX127x: truncated to the synthesiser step below: 0 <= f - Frf * 32e6/2^19 < 61.04 Hz, three bytes suffice up to 1023.99 MHz *)
-Theorem pll127_floor f : (f <= 1023999999)%N ->
+(* SX127x: rounded to the nearest synthesiser step: |f - Frf * 32e6/2^19| <= 30.52 Hz, three bytes suffice over the chip range (up to 1020 MHz) *)
+Theorem pll127_nearest f : (f <= 1020000000)%N ->
   let s := pll_step_127 f in
-  (s < 2 ^ 24)%N /\ (0 <= Z.of_N f * 524288 - Z.of_N s * 32000000 < 32000000)%Z.
+  (s < 2 ^ 24)%N /\ (- 16000000 < Z.of_N f * 524288 - Z.of_N s * 32000000 <= 16000000)%Z.
 Proof.
   intros Hf s. subst s. unfold pll_step_127. rewrite N.mod_small by lia.
   change (2 ^ 24)%N with 16777216%N. split; lia.
